@@ -309,6 +309,14 @@ class Metadata(CbMixin, ProgMixin):
                 pathnode = PathNode(start=start, stop=stop, **current)
                 piece.append(pathnode)
             self.piece_nodes.append(piece)
+        while self.piece_nodes and file_index < len(self.files):
+            # empty files at the end of the list belong to no piece
+            current = self.files[file_index]
+            if current["length"]:
+                break
+            pathnode = PathNode(start=0, stop=-1, **current)
+            self.piece_nodes[-1].append(pathnode)
+            file_index += 1
 
     def _parse_tree(self, tree: dict, partials: list):
         """
